@@ -147,7 +147,7 @@ def wAtom (recW : Expr → Bool) : Expr → Bool
   | .lit (.str _) => true
   | .lit (.bool _) => true
   | .lit (.int v) => decide (0 ≤ v) && decide (v ≤ maxInt64)
-  | .lit (.float t) => fmtFloat t == some t
+  | .lit (.float t) => fmtFloat t == some t && !floatOverflows t
   | .list es => es.all recW
   | .paren e => recW e
   | .map kvs => wMap recW kvs
